@@ -108,6 +108,7 @@ type c03World struct {
 }
 
 var c03Inited bool
+var c03AcceptBlocked bool
 
 func c03Init() {
 	if c03Inited {
@@ -534,10 +535,16 @@ func (w *c03World) doAccept(id string, data []byte, ws int64) bool {
 		defer close(done)
 		w.buf.Accept(base.LogChunk{ID: id, Data: cp, Saved: false})
 	}()
+	// generous the first time (a loaded machine must not raise a false alarm), short once Accept is known to block
+	patience := 60 * time.Second
+	if c03AcceptBlocked {
+		patience = 2 * time.Second
+	}
 	select {
 	case <-done:
-	case <-time.After(10 * time.Second):
-		w.fail("c03:accept-blocked", fmt.Sprintf("Accept(%s) did not return within 10 s (window=%d)", id, winBefore))
+	case <-time.After(patience):
+		c03AcceptBlocked = true
+		w.fail("c03:accept-blocked", fmt.Sprintf("Accept(%s) did not return within %s (window=%d of %d, queue capacity %d)", id, patience, winBefore, w.cur.M, w.cur.Q))
 		undo()
 		return true
 	}
